@@ -31,8 +31,9 @@ ASSUMPTIONS = [
 ]
 MANIFEST = {
     "category": "exploration",
-    "technique": "deterministic-schedule concurrency testing: exhaustive single pre-emption over ordered operation pairs + generated multi-pre-emption schedules under an owned line-level scheduler, differential against sequential results",
-    "text": "All single pre-emptions of every ordered pair of catalogue operations on a shared handle are enumerated, plus generated "
+    "technique": "deterministic-schedule concurrency testing: exhaustive single pre-emption over ordered operation pairs, symmetric two-pre-emption exploration of same-code pairs and generated multi-pre-emption schedules under an owned line-level scheduler, differential against sequential results",
+    "text": "All single pre-emptions of every ordered pair of catalogue operations on a shared handle are enumerated, plus two "
+            "pre-emptions around the same program point of two threads running the same code (readers and part-file writers), generated "
             "2-3 pre-emption schedules and a free-running stress; each concurrent result must equal the sequential result and no call may fail.",
     "note": "Trusted: the scheduler (vf/sched.py) serialises threads correctly; CPython executes the traced line events in program order.",
 }
